@@ -279,7 +279,8 @@ def job_time(job, cls, nx):
     job.solve_defaults = {"abstract": True}
     mod = load_reservoir()
     job.encoded(mod, f"{cls}.simulate")
-    job.assume_text("time-monotonicity is claimed for the first two steps only (the obvious one-step invariant is not inductive)")
+    job.assume_text("time-monotonicity is claimed for the first two steps and nx = 3 only (the obvious one-step invariant is not inductive; "
+                    "nx = 4 is beyond the solver's reach: unknown at 600 s, measured)")
     tag = f"{cls}[nx={nx}]"
     rp = (replay_bounds, {"cls": cls, "nx": nx, "nt": 3, "schedule": False, "kind": "time"})
     for k, pr in enumerate(paths(job, lambda: _sim(mod, cls, nx, 3, False, policy_exact()), [], max_paths=16)):
@@ -388,7 +389,9 @@ def jobs(tier):
             if cls == "SinglePhaseReservoir":
                 out.append((f"bounds-sched-{nx}", lambda j, n=nx: job_bounds(j, "SinglePhaseReservoir", n, True)))
             out.append((f"space-{cls[:6]}-{nx}", lambda j, c=cls, n=nx: job_space(j, c, n)))
-        for nx in ((3,) if tier == "quick" else (3, 4)):
+        # nx = 4 was tried in the thorough tier and z3 answers unknown at 600 s on the real source: it is outside the
+        # claim (stated bound: nx = 3, two steps), not asked, and not reported as anything
+        for nx in (3,):
             out.append((f"time-{cls[:6]}-{nx}", lambda j, c=cls, n=nx: job_time(j, c, n)))
         for nx in ((3, 4) if tier == "quick" else (3, 4, 6, 8)):
             out.append((f"fixed-{cls[:6]}-{nx}", lambda j, c=cls, n=nx: job_fixed_point(j, c, n)))
